@@ -66,7 +66,9 @@ CONSTANTS Variant,   \* "intended" | "as_shipped"
           Mods,      \* module names
           Segs,      \* path segment alphabet of the pairs (accepted segments only make sense)
           SegsAll,   \* path segment alphabet of the singles (whole alphabet)
-          MaxSegs    \* bound on the number of path segments
+          MaxSegs,   \* bound on the number of path segments
+          NearSpread \* Mode "near": in how many of (scheme case, host, host case, port, module) the first URI
+                     \* may differ from the plain one (lower case, "h.test", no port, "m"); 5 = no restriction
 
 VARIABLES kind, u1, u2, phase, ents
 vars == <<kind, u1, u2, phase, ents>>
@@ -113,7 +115,7 @@ Dots(t)    == t = "." \/ t = ".."
 (* empty item only as the very last one; authority and module not empty.   *)
 (* Percent sequences are ordinary characters and are never decoded.        *)
 AcceptRsync(u) ==
-  /\ u.host # "" /\ u.mod # ""
+  /\ Authority(u) # "" /\ u.mod # ""              \* ":873" and "..:873" are authorities like any other
   /\ ~Dots(Authority(u)) /\ ~Dots(u.mod)
   /\ ~BadChar(u.mod)
   /\ \A i \in 1..Len(u.path) :
@@ -201,7 +203,8 @@ DumpRsyncFilePath(u) == <<"dump", "rsync", CanonAuth(u), u.mod>> \o u.path      
 
 ----------------------------------------------------------------------------
 (* The entries created for the URI(s) of a case.                           *)
-(* An entry: [p: path, n, esc, t: "file" | "dir", w: "run" | "dump"].      *)
+(* An entry: [p: path, n, esc, t: "file" | "dir", w: "run" | "dump" |       *)
+(* "dump2" (dump, under the second name the registry may give)].           *)
 
 (* n, esc: the resolved path (computed once, when the entry is created).  *)
 E(p, t, w) == LET r == Norm(p) IN [p |-> p, n |-> r.p, esc |-> r.esc, t |-> t, w |-> w]
@@ -233,23 +236,29 @@ EntriesMft(u, i, n) ==
               E(DumpObjectPath(u, n, 0), "file", "dump")}
         ELSE {})
 
+(* The module directory exists once rsync copied something into it.  The   *)
+(* dump copies the directories stored/ta/rsync and stored/ta/https         *)
+(* (store.rs:275): a certificate whose authority ".." moved it out of      *)
+(* there is not dumped.                                                    *)
+InTaDir(u) == CanonAuth(u) # ".."
 EntriesTa(u, i) ==
   IF u.sch = "rsync"
-  THEN {E(RsyncModulePath(u), "dir", "run")}
-       \cup (IF Published(i)
-             THEN {E(TaPath(u), "file", "run"), E(RsyncFilePath(u), "file", "run"),
-                   E(DumpTaPath(u), "file", "dump"), E(DumpRsyncFilePath(u), "file", "dump")}
-             ELSE {})
-  ELSE {E(TaPath(u), "file", "run"), E(DumpTaPath(u), "file", "dump")}
+  THEN IF Published(i)
+       THEN {E(RsyncModulePath(u), "dir", "run"), E(TaPath(u), "file", "run"), E(RsyncFilePath(u), "file", "run"),
+             E(DumpTaPath(u), "file", "dump"), E(DumpRsyncFilePath(u), "file", "dump")}
+       ELSE {}
+  ELSE {E(TaPath(u), "file", "run")} \cup (IF InTaDir(u) THEN {E(DumpTaPath(u), "file", "dump")} ELSE {})
 
 (* slot: which of two repositories with the same authority the dump meets  *)
 (* second (directory order; either is possible, so both are entries).      *)
 EntriesNotify(n, i, other) ==
   LET slots == IF other.sch # "none" /\ CanonAuth(other) = CanonAuth(n) /\ ~Equivalent(other, n)
                THEN {0, 1} ELSE {0} IN
-  {E(RrdpArchivePath(n), "file", "run"), E(RepoDir(n), "dir", "run"),
-   E(StorePointPath(FixedMft(i), n), "file", "run")}
-  \cup {E(DumpObjectPath(FixedMft(i), n, s), "file", "dump") : s \in slots}
+  {E(RepoDir(n), "dir", "run"), E(StorePointPath(FixedMft(i), n), "file", "run")}
+  \cup (IF CanonAuth(n) = "" THEN {}        \* an archive directly in cache/rrdp is a stray file for the cleanup
+        ELSE {E(RrdpArchivePath(n), "file", "run")})               \* (rrdp/base.rs:493): gone after the run
+  \cup (IF CanonAuth(n) = ".." THEN {}      \* the dump walks stored/rrdp (store.rs:268): this one is not below it
+        ELSE {E(DumpObjectPath(FixedMft(i), n, s), "file", IF s = 0 THEN "dump" ELSE "dump2") : s \in slots})
 
 Entries(k, u, i, other) ==
   IF u.sch = "none" THEN {}
@@ -289,6 +298,10 @@ Near(k, u) ==
        \cup {[u EXCEPT !.path = p] : p \in {q \in paths : Len(q) <= MaxSegs /\ q # <<"">>}} )
      \ {u}
 
+B2N(b) == IF b THEN 1 ELSE 0
+Spread(u) == B2N(u.sc # "lower") + B2N(u.host # "h.test") + B2N(u.hc # "lower") + B2N(u.port # "")
+             + B2N(u.mod \notin {"m", ""})
+
 ----------------------------------------------------------------------------
 (* State machine *)
 
@@ -300,7 +313,7 @@ Init ==
             /\ u1 \in {u \in UrisOf(kind, Segs) : Accept(u)}
             /\ u2 \in {u \in UrisOf(kind, Segs) : Accept(u)}
        [] Mode = "near" ->
-            /\ u1 \in {u \in UrisOf(kind, Segs) : Accept(u)}
+            /\ u1 \in {u \in UrisOf(kind, Segs) : Accept(u) /\ Spread(u) <= NearSpread}
             /\ u2 \in {u \in Near(kind, u1) : Accept(u)}
        [] Mode = "single" ->
             /\ u1 \in UrisOf(kind, SegsAll)
@@ -323,7 +336,7 @@ Spec == Init /\ [][Next]_vars
 TypeOK ==
   /\ kind \in Kinds
   /\ phase \in {"picked", "done"}
-  /\ \A i \in 1..2 : \A e \in ents[i] : e.t \in {"file", "dir"} /\ e.w \in {"run", "dump"} /\ Len(e.p) >= 2
+  /\ \A i \in 1..2 : \A e \in ents[i] : e.t \in {"file", "dir"} /\ e.w \in {"run", "dump", "dump2"} /\ Len(e.p) >= 2
 
 Top(e) == e.p[1]
 
